@@ -673,6 +673,9 @@ def pick_race(rng, g, v, profile):
     cons = rng.choice(gen.CONSUMERS)
     if v.consumers and rng.random() < profile.get('existing_consumer_bias', 0.3):
         cons = rng.choice(list(v.consumers))
+    with_allocs = [c for c in v.consumers if v.by_consumer.get(c)]
+    if with_allocs and 'alloc_delete' in kinds and rng.random() < 0.8:
+        cons = rng.choice(with_allocs)        # a DELETE of a consumer that holds nothing is a 404
     out = []
     for _ in range(n):
         k = rng.choices(ks, weights=[kinds[x] for x in ks])[0]
